@@ -23,7 +23,8 @@ func validFor(profile uint16, id uint8, v []byte) bool {
 	case 0x1000:
 		return id >= 1 && len(v) <= 255
 	default:
-		return id == 0
+		// one id-0 value; the extension length field counts it in 32-bit words and is 16 bits wide
+		return id == 0 && len(v) <= 4*65535
 	}
 }
 
@@ -45,11 +46,61 @@ func optBytesV(b []byte, present bool) Val {
 }
 
 func runExtOps(d hdrDesc, ops []Tok) Outcome {
-	var o Outcome
 	h := rtp.Header{Version: uint8(d.version), Padding: d.padding, Marker: d.mk, PayloadType: uint8(d.pt),
 		SequenceNumber: d.seq, Timestamp: d.ts, SSRC: d.ssrc, Extension: d.ext, ExtensionProfile: d.profile}
 	h.CSRC = append([]uint32{}, d.csrc...)
-	var m []kvp // the ordered map the accessors are supposed to implement (holds its own copies)
+	return runExtOpsOn(h, nil, false, ops)
+}
+
+// op 502: xwire [ops] - the start header is what Header.Unmarshal makes of the wire ("obtained from
+// Unmarshal"); the reference map starts with the first element of every id, in order (GetExtension reads
+// the first).  A wire may name an id twice: then GetExtensionIDs lists it twice until it is deleted.
+func runExtOpsWire(wire []byte, ops []Tok) Outcome {
+	var h rtp.Header
+	if _, err := h.Unmarshal(append([]byte{}, wire...)); err != nil {
+		return Outcome{Impl: errV(err), Fail: "the start wire was rejected: " + err.Error()}
+	}
+	var m []kvp
+	dups := false
+	if h.Extension {
+		seen := map[uint8]bool{}
+		for _, id := range h.GetExtensionIDs() {
+			if seen[id] {
+				dups = true
+				continue
+			}
+			seen[id] = true
+			m = append(m, kvp{id, append([]byte{}, h.GetExtension(id)...)})
+		}
+	}
+	o := runExtOpsOn(h, m, dups, ops)
+	if dups {
+		o.Tags = append(o.Tags, "start header from a wire with a repeated id")
+	} else {
+		o.Tags = append(o.Tags, "start header from a wire")
+	}
+	return o
+}
+
+func dedupIDs(ids []uint8) []uint8 {
+	var out []uint8
+	seen := map[uint8]bool{}
+	for _, id := range ids {
+		if !seen[id] {
+			seen[id] = true
+			out = append(out, id)
+		}
+	}
+	return out
+}
+
+func runExtOpsOn(h rtp.Header, m []kvp, dups bool, ops []Tok) Outcome {
+	var o Outcome
+	d := struct {
+		ext     bool
+		profile uint16
+	}{h.Extension, h.ExtensionProfile}
+	// m: the ordered map the accessors are supposed to implement (holds its own copies)
 	// equal values are passed as the SAME slice object, as a caller that sets one buffer under several
 	// ids would; the library may keep the slice but must never write through it
 	interned := map[string][]byte{}
@@ -127,6 +178,17 @@ func runExtOps(d hdrDesc, ops []Tok) Outcome {
 				if err == nil && i >= 0 {
 					m = append(m[:i:i], m[i+1:]...)
 				}
+				if err == nil {
+					// "deleted ids absent"
+					if v := h.GetExtension(id); v != nil {
+						fail("step %d: DelExtension(%d) returned nil, GetExtension(%d) still returns %x", step, id, id, v)
+					}
+					for _, x := range h.GetExtensionIDs() {
+						if x == id {
+							fail("step %d: DelExtension(%d) returned nil, GetExtensionIDs still lists it", step, id)
+						}
+					}
+				}
 				o.Tags = append(o.Tags, fmt.Sprintf("del found=%v", err == nil))
 			case 3:
 				id := uint8(tokInt(l[1]))
@@ -150,6 +212,9 @@ func runExtOps(d hdrDesc, ops []Tok) Outcome {
 						vs = append(vs, I(int64(x)))
 					}
 					outs = append(outs, T(0, vs))
+				}
+				if dups {
+					ids = dedupIDs(ids) // an id the wire named twice is listed twice until it is deleted
 				}
 				if len(ids) != len(m) && !(len(m) == 0 && ids == nil) {
 					fail("step %d: GetExtensionIDs has %d ids, expected %d", step, len(ids), len(m))
@@ -205,6 +270,69 @@ func runExtOps(d hdrDesc, ops []Tok) Outcome {
 	return o
 }
 
+// extStartWire is a header as it comes off the wire: no extension, a one-byte, two-byte or legacy block
+// with 0-4 elements and zero padding between them; in a fifth of the RFC 8285 blocks an id occurs twice
+func extStartWire(c *RNG) []byte {
+	w := []byte{0x80, byte(c.Intn(128)), byte(c.Intn(256)), byte(c.Intn(256)), 1, 2, 3, 4, 5, 6, 7, 8}
+	kind := c.Intn(4)
+	if kind == 0 {
+		return w
+	}
+	w[0] |= 0x10
+	var body []byte
+	profile := uint16(0xBEDE)
+	idsPool := []int{1, 2, 5, 14}
+	n := c.Intn(5)
+	var ids []int
+	for i := 0; i < n; i++ {
+		ids = append(ids, idsPool[c.Intn(len(idsPool))])
+	}
+	if c.Intn(5) != 0 { // distinct ids
+		seen := map[int]bool{}
+		var d []int
+		for _, id := range ids {
+			if !seen[id] {
+				seen[id] = true
+				d = append(d, id)
+			}
+		}
+		ids = d
+	}
+	switch kind {
+	case 1:
+		for _, id := range ids {
+			v := c.Bytes(1 + c.Intn(16))
+			body = append(body, byte(id<<4|(len(v)-1)))
+			body = append(body, v...)
+			if c.Intn(3) == 0 {
+				body = append(body, 0)
+			}
+		}
+	case 2:
+		profile = 0x1000
+		for _, id := range ids {
+			if c.Intn(3) == 0 {
+				id = 15 + c.Intn(241)
+			}
+			v := c.Bytes(c.Pick(0, 1, 3, 17, c.Intn(40)))
+			body = append(body, byte(id), byte(len(v)))
+			body = append(body, v...)
+			if c.Intn(3) == 0 {
+				body = append(body, 0)
+			}
+		}
+	default:
+		profile = legacyProfile(c)
+		body = c.Bytes(4 * c.Intn(4))
+	}
+	for len(body)%4 != 0 {
+		body = append(body, 0)
+	}
+	w = append(w, byte(profile>>8), byte(profile), byte(len(body)/4>>8), byte(len(body)/4))
+	w = append(w, body...)
+	return append(w, c.Bytes(c.Intn(4))...)
+}
+
 func init() {
 	register(&Prop{
 		ID:       "C05",
@@ -236,6 +364,11 @@ func init() {
 				ops = append(ops, TList{TI(4)}, TList{TI(3), TI(255)})
 				emit(501, starts[2].tok(), ops)
 				emit(501, starts[3].tok(), TList{TList{TI(1), TI(0), TBytes(make([]byte, 65536))}, TList{TI(3), TI(0)}})
+				// the largest legacy value the 16-bit word count can describe (65535 words), and the first ones it cannot
+				for _, n := range []int{4 * 65535, 4*65535 + 4, 4 * 65537, 4*65535 + 1} {
+					v := bytes.Repeat([]byte{0xAB}, n)
+					emit(501, starts[3].tok(), TList{TList{TI(1), TI(0), TBytes(v)}, TList{TI(3), TI(0)}, TList{TI(4)}})
+				}
 			}
 			idsPool := []int{0, 1, 2, 14, 15, 16, 255}
 			lens := []int{0, 1, 3, 4, 16, 17, 255, 256, 300}
@@ -279,10 +412,17 @@ func init() {
 						ops = append(ops, TList{TI(4)})
 					}
 				}
-				emit(501, d.tok(), ops)
+				if c.Intn(4) == 0 {
+					emit(502, TBytes(extStartWire(c)), ops)
+				} else {
+					emit(501, d.tok(), ops)
+				}
 			}
 		},
 		Run: func(op int, toks []Tok) Outcome {
+			if op == 502 {
+				return runExtOpsWire(tokBytes(toks[0]), tokList(toks[1]))
+			}
 			return runExtOps(hdrDescFromTok(toks[0]), tokList(toks[1]))
 		},
 	})
